@@ -28,7 +28,7 @@ long double osc_primitive(long double al, long double om, long double ph, long d
 	// primitive of exp(-al t) cos(om t + ph)
 	return expl(-al * t) * (om * sinl(om * t + ph) - al * cosl(om * t + ph)) / (al * al + om * om);
 }
-Fn1 gen_fn(Src& s, bool gentle, int force_family = -1)
+Fn1 gen_fn(Src& s, bool gentle, int force_family = -1, bool adaptive_method = false)
 {
 	Fn1 F;
 	std::ostringstream d;
@@ -72,6 +72,12 @@ Fn1 gen_fn(Src& s, bool gentle, int force_family = -1)
 			double sg = std::pow(10.0, s.uniform(-2, 2)), mu = s.uniform(-3, 3) * sg;
 			double wdt = sg * s.uniform(0.2, gentle ? 3.0 : 6.0);
 			double a   = mu + sg * s.uniform(-4, 2);
+			if(adaptive_method && s.chance(0.3))
+			{
+				// an adaptive rule is not bound to what one panel resolves: the peak may be narrow compared with the interval (up to 40 sigma)
+				wdt = sg * s.uniform(10, 40);
+				a	= mu - wdt * s.uniform(0.2, 0.8);
+			}
 			F.a = a;
 			F.b = a + wdt;
 			F.f = [=](double x) { double t = (x - mu) / sg; return std::exp(-0.5 * t * t); };
@@ -128,13 +134,15 @@ VCLAUSE(methods_1d, 60, 12000, 250000, "limits reversed, or an explicit method_p
 	Src& s = c.s;
 	int mi = s.pick({3, 3, 2, 3, 2, 1});
 	std::string m = kMethods[mi];
-	Fn1 F = gen_fn(s, mi == 5);
+	Fn1 F = gen_fn(s, mi == 5, -1, m == "Gauss-Kronrod");
 	bool rev = s.coin();
 	int par	 = 0;
 	if(m == "Gauss-Legendre_2" && s.coin())
 		par = (int) s.range(25, 64);   // explicit number of points (odd and even)
 	if(m == "Gauss-Kronrod" && s.coin())
 		par = (int) s.range(1, 12);	   // explicit maximal depth
+	if(m == "Gauss-Kronrod" && par > 0 && par < 5 && (F.b - F.a) * (F.b - F.a) * F.max_f2 > 64)
+		par = 0;   // a peak much narrower than the interval needs the default depth: an explicit smaller one is the caller's restriction
 	if(m == "Adaptive-Simpson" && !F.simpson_regular && s.chance(0.6))
 		F = gen_fn(s, false, 3);
 	double A = rev ? F.b : F.a, B = rev ? F.a : F.b;
@@ -149,7 +157,17 @@ VCLAUSE(methods_1d, 60, 12000, 250000, "limits reversed, or an explicit method_p
 	VMUST_RETURN("Integrate(" << m << ")", v = libphysica::Integrate(counted, A, B, m, par); vr = libphysica::Integrate(F.f, B, A, m, par); z = libphysica::Integrate(F.f, A, A, m, par));
 	// an explicit number of points is the number of evaluations (a method_parameter that is dropped on the way would still meet the accuracy)
 	if(m == "Gauss-Legendre_2")
+	{
 		VCHECK(ncalls == (par == 0 ? 30 : par), "Gauss-Legendre_2 with method_parameter " << par << " evaluated the integrand " << ncalls << " times");
+		// the same limits again with another number of points: nothing of the previous call may be reused
+		int par2 = par == 0 ? (int) s.range(25, 64) : (s.coin() ? 0 : (par % 2 ? par + 1 : par - 1));
+		long n2	 = 0;
+		double v2 = 0;
+		std::function<double(double)> counted2 = [&](double x) { n2++; return F.f(x); };
+		VMUST_RETURN("Integrate(Gauss-Legendre_2) again", v2 = libphysica::Integrate(counted2, A, B, m, par2));
+		VCHECK(n2 == (par2 == 0 ? 30 : par2), "Gauss-Legendre_2 with method_parameter " << par2 << " right after one with " << par << " on the same limits evaluated the integrand " << n2 << " times");
+		VCLOSE(c, "gl2_second_call_same_limits", v2, (double) exact, 1e-9 * (double) F.abs_integral, "Gauss-Legendre_2 (parameter " << par2 << ") right after parameter " << par << " on the same limits, " << F.desc);
+	}
 	VCHECK(same_bits(vr, -v) || (v == 0 && vr == 0), m << ": reversing the limits must negate the result exactly: " << v << " vs " << vr);
 	VCHECK(z == 0.0, m << ": equal limits must give zero, got " << z);
 	// accuracy relative to the integral of |f| (never to a cancelling integral)
